@@ -58,6 +58,7 @@ def parse_args(argv):
     ap.add_argument("--no-evidence", action="store_true")
     ap.add_argument("--no-shrink", action="store_true")
     ap.add_argument("--digests", help="write job digests to this file (determinism self-test)")
+    ap.add_argument("--dump", help="replay: write the full run result (events, stats) to this file")
     ap.add_argument("--budget", type=float, help="wall-clock budget in seconds for the search phase")
     return ap.parse_args(argv)
 
@@ -120,6 +121,9 @@ def do_replay(args, engine, lanes, prop):
     want = rp.get("violation_class")
     got = vclass(engine, res)
     log(f"replay status={res.get('status')} class={got} digest={res.get('digest')}")
+    if args.dump:
+        with open(args.dump, "w") as f:
+            json.dump({k: v for k, v in res.items() if k != "record"}, f, indent=1, default=str)
     if res.get("status") == "violation":
         log("  " + res["violation"].get("detail", ""))
         if res["violation"].get("stderr"):
